@@ -258,3 +258,8 @@ func verifLemmaSolexaEncDec(q Qsolexa) Qsolexa { return Solexa.DecodeToQsolexa(q
 
 //@ func (Alphabet).Moltype
 //@   pure
+
+//@ spec gapOf(a Alphabet) int
+//@ func (Alphabet).Gap
+//@   pure
+//@   ensures result == gapOf(self)
